@@ -119,13 +119,17 @@ def magnitudes(rng, klass, n):
     return a, b
 
 
-def make(mags, dim, shape_is_array, as_int=False):
+def make(mags, dim, shape_is_array, as_int=False, via_ctor=False):
     """Build the real operand.  dim = (name, unit, vec)."""
     from pgradd.Units import eval_qty
     name, unit, vec = dim
     if name == 'bare zero':
         return 0 if as_int else 0.0
     if shape_is_array and name != 'number':
+        if via_ctor:
+            # the documented constructor: a bundle of scalar quantities
+            from pgradd.Units import ArrayQuantity
+            return ArrayQuantity([m * eval_qty(unit) for m in mags])
         return np.array(mags, dtype=float) * eval_qty(unit)
     x = mags[0]
     if name == 'number':
@@ -168,8 +172,9 @@ def vals_close(got, want):
 def check_pair(ctx, key, da, db, mclass, shape, ma, mb):
     arr_a = shape in ('array.array', 'array.scalar')
     arr_b = shape in ('array.array', 'scalar.array')
-    A = make(ma, da, arr_a)
-    B = make(mb, db, arr_b, as_int=(len(key) % 2 == 0))
+    ctor = sum(map(ord, ''.join(map(str, key)))) % 2 == 1
+    A = make(ma, da, arr_a, via_ctor=ctor)
+    B = make(mb, db, arr_b, as_int=(len(key) % 2 == 0), via_ctor=not ctor)
     a_is_q = da[2] is not None
     b_is_q = db[2] is not None
     if not (a_is_q or b_is_q):
@@ -312,7 +317,81 @@ def check_pair(ctx, key, da, db, mclass, shape, ma, mb):
                     judge('in_units', o, 'value', va / _si(db[1]), ZERO7)
                 else:
                     judge('in_units', o, 'UnitsError')
+        if shape == 'array.array' and a_is_q and b_is_q:
+            elementwise(ctx, case, A, B, va, vb, veca, vecb)
+        if shape == 'scalar.scalar' and a_is_q and b_is_q and \
+                mclass in ('equal', 'a<b', 'a>b', 'negative', 'tiny/huge'):
+            # bundling scalars into one array quantity is combining them
+            from pgradd.Units import ArrayQuantity
+            o = observe(ArrayQuantity, [A, B])
+            if same_vec(veca, vecb):
+                judge('bundle', o, 'value', np.array([va, vb]), veca)
+            else:
+                judge('bundle', o, 'UnitsError')
     ctx.klass('%s | %s' % (mclass, shape))
+
+
+def elementwise(ctx, case, A, B, va, vb, veca, vecb):
+    """An array quantity is its elements: X[i] is the scalar quantity with
+    the array's dimension and the i-th SI magnitude, and every operator on
+    the arrays agrees, element by element, with the operator on X[i], Y[i]
+    (same value, or the same error)."""
+    from pgradd.Units import Quantity
+    for nm, X, v, vec in (('a', A, va, veca), ('b', B, vb, vecb)):
+        for i in range(len(v)):
+            ctx.evals()
+            o = observe(operator.getitem, X, i)
+            if 'exc' in o:
+                ctx.violation('indexing an array quantity raised %s'
+                              % o['exc'], case, {'msg': o['msg']})
+                return
+            e = o['ok']
+            if not isinstance(e, Quantity) or not same_vec(
+                    tuple(float(x) for x in e.units.exps), vec) or \
+                    not vals_close(e.value, v[i]):
+                ctx.violation('element of an array quantity is not the '
+                              'scalar quantity with its dimension and '
+                              'magnitude', dict(case, operand=nm, index=i),
+                              {'got': repr(e)[:160], 'want_value': float(v[i]),
+                               'want_exps': vec})
+                return
+    for op, fn in BINOPS.items():
+        if op == '/' and np.any(np.asarray(vb) == 0):
+            continue
+        whole = observe(fn, A, B)
+        for i in range(len(va)):
+            ctx.evals()
+            part = observe(fn, A[i], B[i])
+            if ('exc' in whole) != ('exc' in part) or (
+                    'exc' in whole and whole['exc'] != part['exc']):
+                ctx.violation('%s on array quantities and on their elements '
+                              'disagree about raising' % op,
+                              dict(case, op=op, index=i),
+                              {'arrays': whole.get('exc', 'returned'),
+                               'elements': part.get('exc', 'returned')})
+                return
+            if 'exc' in whole:
+                continue
+            w = whole['ok']
+            if np.ndim(w) == 0:
+                # == / != of incompatible arrays give one bool
+                wi = w
+            else:
+                wi = w[i]
+            pv, pe, pq = unpack(part['ok'])
+            wv, we, wq = unpack(wi)
+            if pq != wq or (pq and not same_vec(pe, we)) or not (
+                    vals_close(wv, pv) if not isinstance(pv, (bool, np.bool_))
+                    else bool(wv) == bool(pv)):
+                ctx.violation('%s on array quantities differs from the same '
+                              'operator on their elements' % op,
+                              dict(case, op=op, index=i),
+                              {'array_element': repr(wi)[:120],
+                               'elements': repr(part['ok'])[:120]})
+                return
+        ctx.nontrivial(['elementwise', case['a'][0], case['b'][0],
+                        case['mclass'], op])
+    ctx.count('elementwise_array_checks')
 
 
 _SI = {}
